@@ -6,6 +6,7 @@
 pub mod a;
 pub mod b;
 pub mod c;
+pub mod speed;
 pub mod types;
 
 // Source text that lives in a file WITHOUT the `.rs` extension (pulled in by `include!`): it is
